@@ -584,7 +584,7 @@ func (r *Run) siblingLoop(eq *Rec) (bool, string) {
 		if rec.Kind != "call" || rec.Callee == nil || rec.Callee.Name() != "Poseidon" || fnPkgShort(rec.Callee) != "poseidon" {
 			continue
 		}
-		if !sameChain(rec.Chain, eq.Chain) || len(rec.Loops) != len(eq.Loops)+1 {
+		if !chainUnder(eq.Chain, rec.Chain) || len(rec.Loops) != len(eq.Loops)+1 {
 			continue
 		}
 		id := rec.Loops[len(rec.Loops)-1]
@@ -620,6 +620,19 @@ func (r *Run) siblingLoop(eq *Rec) (bool, string) {
 	return false, why
 }
 
+// chainUnder: the record with chain b sits in the function of chain a or in a function called (transitively) from it
+func chainUnder(a, b []CallStep) bool {
+	if len(b) < len(a) {
+		return false
+	}
+	for i := range a {
+		if a[i].Site != b[i].Site {
+			return false
+		}
+	}
+	return true
+}
+
 func sameChain(a, b []CallStep) bool {
 	if len(a) != len(b) {
 		return false
@@ -638,7 +651,7 @@ func sameChain(a, b []CallStep) bool {
 func (r *Run) leafWhole(eq *Rec, leafPat string) (bool, string) {
 	re := patRe(leafPat)
 	for _, rec := range r.Recs {
-		if rec.Kind != "call" || rec.Callee == nil || rec.Callee.Name() != "HashOrNoop" || !sameChain(rec.Chain, eq.Chain) || len(rec.Args) < 2 {
+		if rec.Kind != "call" || rec.Callee == nil || rec.Callee.Name() != "HashOrNoop" || !chainUnder(eq.Chain, rec.Chain) || len(rec.Args) < 2 {
 			continue
 		}
 		a := rec.Args[1]
@@ -661,7 +674,7 @@ func (r *Run) leafWhole(eq *Rec, leafPat string) (bool, string) {
 // of every element of the step's evaluations.
 func (r *Run) leafBothCoords(eq *Rec, evalsPat string) (bool, string) {
 	for _, rec := range r.Recs {
-		if rec.Kind != "call" || rec.Callee == nil || rec.Callee.Name() != "HashOrNoop" || !sameChain(rec.Chain, eq.Chain) || len(rec.Args) < 2 {
+		if rec.Kind != "call" || rec.Callee == nil || rec.Callee.Name() != "HashOrNoop" || !chainUnder(eq.Chain, rec.Chain) || len(rec.Args) < 2 {
 			continue
 		}
 		el := r.In.Narrow(rec.Args[1], "[?]")
